@@ -109,6 +109,10 @@ impl Obj {
     pub fn finished(&self) -> bool {
         self.car.is_none() && self.stops >= self.burst()
     }
+    /// completed attempts that were not scheduled to fail (for a buffer source: all of them)
+    pub fn healthy_stops(&self) -> u64 {
+        self.stops - self.stops.min(self.faults.len() as u64)
+    }
 }
 
 #[derive(Default)]
@@ -254,6 +258,25 @@ impl SchedEngine {
         self.cfg.as_ref().and_then(|c| c.queues.get(&prio)).map(|m| (*m).max(1) as u64).unwrap_or(0)
     }
 
+    /// some object of queue `prio` still has a scheduled fault ahead (attempt index = completed attempts)
+    fn fault_pending_in_queue(&self, prio: u32) -> bool {
+        self.objs.values().any(|x| x.prio == prio && (x.stops as usize) < x.faults.len() && (x.in_transfer || (x.removed.is_none() && !x.gone)))
+    }
+
+    /// every transfer holding a slot of queue `prio` is paced and its next packet is not due yet at `now` (by the floor
+    /// tick: `start + sent * tick > now`) - the registered head-of-line situation F23; a holder that is due, unpaced,
+    /// finished or being stopped does not qualify (then the strict-priority / idle oracles judge the call)
+    fn holders_surely_not_due(&self, prio: u32, now: u64) -> bool {
+        self.objs.values().filter(|x| x.prio == prio && x.in_transfer).all(|x| {
+            x.removed.is_none()
+                && x.sent < x.n_pk
+                && match x.tick {
+                    Some(t) => (x.t_start as u128) + (x.sent as u128) * (t as u128) > now as u128,
+                    None => false,
+                }
+        })
+    }
+
     fn open_in_queue(&self, prio: u32) -> u64 {
         self.objs.values().filter(|o| o.prio == prio && o.in_transfer).count() as u64
     }
@@ -263,9 +286,10 @@ impl SchedEngine {
         if o.removed.is_some() || o.gone || o.in_transfer {
             return false;
         }
-        // while a source of the case can fail, "ready" objects may yield nothing (the attempt fails and the slot gives
-        // the hand back): the priority / idle oracles are stated for fault-free cases (as the theorems are)
-        if self.objs.values().any(|x| !x.faults.is_empty()) {
+        // while an attempt of an object of THIS queue is still going to fail, "ready" objects of the queue may yield nothing
+        // (the attempt fails and the slot gives the hand back for this call): the priority / idle oracles are off for
+        // the queue until its last scheduled fault is consumed (the theorems assume fault-free sources)
+        if self.fault_pending_in_queue(o.prio) {
             return false;
         }
         let full = self.cfg.as_ref().map(|c| c.full).unwrap_or(true);
@@ -290,12 +314,15 @@ impl SchedEngine {
         if !o.in_transfer || o.removed.is_some() || o.sent >= o.n_pk {
             return false;
         }
-        if self.objs.values().any(|x| !x.faults.is_empty()) {
+        if self.fault_pending_in_queue(o.prio) {
             return false;
         }
         match o.tick {
             None => true,
-            Some(t) => (o.t_start as u128) + (o.sent as u128) * (t as u128) <= now as u128,
+            // due FOR SURE only one ns per packet after the floor tick's due time: C14 fixes the tick up to the integer
+            // rounding of target / n (floor, ceil and nearest all satisfy it); the exact due instant is compared with
+            // the model (floor, /repo 9d73d78), not demanded by this oracle
+            Some(t) => (o.t_start as u128) + (o.sent as u128) * ((t as u128) + 1) <= now as u128,
         }
     }
 
@@ -546,8 +573,11 @@ impl SchedEngine {
                 o.fail("C12:removed-still-added", &format!("object {} removed but is_added", ob.toi));
             }
             if ob.car.is_none() && ob.removed.is_none() {
-                if ob.stops >= ob.burst() && added {
-                    o.fail("C12:expired-still-added", &format!("object {} had {} transfers (max {}) and is still is_added", ob.toi, ob.stops, ob.maxc));
+                // C12 counts transfers; whether an attempt that failed to start (faulty stream source: outside C12's
+                // quantifier, observation sched-9) counts is not stated: judged on the attempts that were not scheduled
+                // to fail (the model comparison still pins the current policy: attempts count)
+                if ob.healthy_stops() >= ob.burst() && added {
+                    o.fail("C12:expired-still-added", &format!("object {} had {} transfers (max {}) and is still is_added", ob.toi, ob.healthy_stops(), ob.maxc));
                 }
                 if ob.stops < ob.burst() && !added {
                     o.fail("C12:vanished-early", &format!("object {} vanished after {} of {} transfers", ob.toi, ob.stops, ob.maxc));
@@ -590,7 +620,7 @@ impl SchedEngine {
         let blocked_behind_slot: Vec<(u32, u64)> = self
             .objs
             .values()
-            .filter(|ob| self.surely_eligible(ob, now) && self.open_in_queue(ob.prio) >= self.slots(ob.prio))
+            .filter(|ob| self.surely_eligible(ob, now) && self.open_in_queue(ob.prio) >= self.slots(ob.prio) && self.holders_surely_not_due(ob.prio, now))
             .map(|ob| (ob.prio, ob.toi))
             .collect();
         let no_object_remains = self.sender.as_ref().unwrap().nb_objects() == 0 && !self.objs.values().any(|ob| ob.in_transfer);
@@ -743,7 +773,7 @@ impl SchedEngine {
             }
             self.nontrivial.insert("start-time");
         }
-        if ob.car.is_none() && ob.stops >= ob.burst() {
+        if ob.car.is_none() && ob.healthy_stops() >= ob.burst() {
             o.fail("C12:extra-transfer", &format!("transfer {} of object {} (max_transfer_count {})", ob.stops + 1, toi, ob.maxc));
         }
         // carousel gap
@@ -782,12 +812,6 @@ impl SchedEngine {
                 Some((tk, dur)) => {
                     ob.tick = Some(*tk);
                     ob.tdur = *dur;
-                    let (tk, dur, n) = (*tk as u128, *dur as u128, ob.n_sym as u128);
-                    if !(tk * n <= dur + n && dur <= (tk + 1) * n) {
-                        // f64 carries 53 bits: above 2^53 ns (~104 days) `Duration::div_f64` is not exact to the ns
-                        let class = if dur >= (1u128 << 53) { "C14:tick-rounding-above-2^53" } else { "C14:tick-rounding-hypothesis" };
-                        o.fail(class, &format!("div_f64({} ns, {}) = {} ns: tick * n differs from the target by {} ns, more than 1 ns per packet", dur, n, tk, (tk * n).abs_diff(dur)));
-                    }
                     self.ticks_used = true;
                     self.nontrivial.insert("paced");
                 }
@@ -1061,15 +1085,11 @@ impl SchedEngine {
         // pacing lower bound
         if let Some(tk) = ob.tick {
             let n = ob.n_sym as u128;
+            // C14 as stated, independent of any tick computed here: packet idx not before start + idx * target / n,
+            // up to 1 ns per packet of integer rounding: (elapsed + idx) * n >= idx * target
             let lhs = ((now as u128).saturating_sub(ob.t_start as u128)) * n + (idx as u128) * n;
-            let elapsed = (now as u128).saturating_sub(ob.t_start as u128);
-            if elapsed < (idx as u128) * (tk as u128) {
-                o.fail("C14:pacing-early", &format!("packet {} of {} at start+{} ns, before {} ticks of {} ns", idx, toi, elapsed, idx, tk));
-            } else if lhs < (idx as u128) * (ob.tdur as u128) {
-                // on time by the tick the sender computed, early by the literal target / n: only the rounding of
-                // `Duration::div_f64` can do that, and only above 2^53 ns
-                let class = if (ob.tdur as u128) >= (1u128 << 53) { "C14:tick-rounding-above-2^53" } else { "C14:pacing-early" };
-                o.fail(class, &format!("packet {} of {} at start+{} ns, target {} ns over {} packets (tick {})", idx, toi, now.saturating_sub(ob.t_start), ob.tdur, n, tk));
+            if lhs < (idx as u128) * (ob.tdur as u128) {
+                o.fail("C14:pacing-early", &format!("packet {} of {} at start+{} ns, target {} ns over {} packets (floor tick {})", idx, toi, now.saturating_sub(ob.t_start), ob.tdur, n, tk));
             }
         }
         if let Some(s) = ob.eff_start {
